@@ -82,6 +82,17 @@ func cmdJob(args []string) int {
 	var seed int64
 	fmt.Sscanf(args[1], "%d", &seed)
 	job := map[string]interface{}{"id": 1, "prop": prop, "profile": profile, "seed": seed, "want_log": true}
+	knobs := map[string]int{}
+	for _, a := range args[2:] {
+		if i := strings.Index(a, "="); i > 0 {
+			var v int
+			fmt.Sscanf(a[i+1:], "%d", &v)
+			knobs[a[:i]] = v
+		}
+	}
+	if len(knobs) > 0 {
+		job["knobs"] = knobs
+	}
 	jb, _ := json.Marshal(job)
 	cmd := exec.Command(b.Worker, "-test.run", "^TestVerifWorker$", "-test.timeout", "0")
 	gm := os.Getenv("VERIF_GOMAXPROCS")
